@@ -1,4 +1,5 @@
 import MicroHttp.Props.C09
+import MicroHttp.Props.C09History
 import MicroHttp.Props.C10History
 import MicroHttp.Props.Tables
 #print axioms MicroHttp.C09.poll_returns
@@ -9,6 +10,9 @@ import MicroHttp.Props.Tables
 #print axioms MicroHttp.C09.closed_and_answered_is_swept
 #print axioms MicroHttp.C09.others_unaffected
 #print axioms MicroHttp.C09.stale_out_is_harmless
+#print axioms MicroHttp.C09.call_succeeds
+#print axioms MicroHttp.C09.no_call_ever_fails
+#print axioms MicroHttp.C09.no_call_ever_fails_from_new
 #print axioms MicroHttp.C10.respondMany_inv
 #print axioms MicroHttp.C10.history_inv
 #print axioms MicroHttp.Tables.client_write_state
